@@ -301,6 +301,7 @@ func Run(c *engine.Ctx) {
 		}
 	}
 	c.Bound("sequential", fmt.Sprintf("%d operation instances over %d operand document variants x %d second-operand variants", total, len(names), len(names)))
+	schedules(c)
 }
 
 func opFamily(name string) string {
